@@ -176,6 +176,56 @@ static void op_locale(uint32_t j, rec_t *r, xrl_error **e) {
     blob_printf("%u\t%s\t%s\n", j, setlocale(LC_ALL, NULL), localeconv()->decimal_point); trk_on = off;
 }
 
+
+/* ---- deep-copy independence (C15): fetch 3 copies, scribble over one, compare the others and a fresh fetch, free in the order given */
+static unsigned long long dg_add(unsigned long long h, const void *p, size_t n) { const unsigned char *b = p; for (size_t i = 0; i < n; i++) { h ^= b[i]; h *= 1099511628211ull; } return h; }
+static unsigned long long dg_nist(const struct compoundDataNIST *c) {
+    unsigned long long h = 1469598103934665603ull; h = dg_add(h, c->name, strlen(c->name)); h = dg_add(h, &c->nElements, sizeof(int)); h = dg_add(h, &c->density, 8);
+    h = dg_add(h, c->Elements, sizeof(int) * c->nElements); h = dg_add(h, c->massFractions, 8 * c->nElements); return h; }
+static unsigned long long dg_radio(const struct radioNuclideData *c) {
+    unsigned long long h = 1469598103934665603ull; h = dg_add(h, c->name, strlen(c->name)); int v[6] = { c->Z, c->A, c->N, c->Z_xray, c->nXrays, c->nGammas }; h = dg_add(h, v, sizeof v);
+    h = dg_add(h, c->XrayLines, sizeof(int) * c->nXrays); h = dg_add(h, c->XrayIntensities, 8 * c->nXrays); h = dg_add(h, c->GammaEnergies, 8 * c->nGammas); h = dg_add(h, c->GammaIntensities, 8 * c->nGammas); return h; }
+static unsigned long long dg_crystal(const Crystal_Struct *c) {
+    unsigned long long h = 1469598103934665603ull; h = dg_add(h, c->name, strlen(c->name)); double v[7] = { c->a, c->b, c->c, c->alpha, c->beta, c->gamma, c->volume }; h = dg_add(h, v, sizeof v);
+    h = dg_add(h, &c->n_atom, sizeof(int)); for (int i = 0; i < c->n_atom; i++) { h = dg_add(h, &c->atom[i].Zatom, sizeof(int)); double w[4] = { c->atom[i].fraction, c->atom[i].x, c->atom[i].y, c->atom[i].z }; h = dg_add(h, w, sizeof w); } return h; }
+static const int PERM3[6][3] = { {0,1,2}, {0,2,1}, {1,0,2}, {1,2,0}, {2,0,1}, {2,1,0} };
+static void op_deepcopy_nist(uint32_t j, rec_t *r, xrl_error **e) {
+    struct compoundDataNIST *c[3]; int k = I(0), perm = I(1) % 6, byname = I(2);
+    char **names = NULL; int nn = 0;
+    if (byname) names = GetCompoundDataNISTList(&nn, NULL);
+    for (int q = 0; q < 3; q++) c[q] = byname && k >= 0 && k < nn ? GetCompoundDataNISTByName(names[k], q == 0 ? e : NULL) : GetCompoundDataNISTByIndex(k, q == 0 ? e : NULL);
+    if (names) { for (int q = 0; q < nn; q++) xrlFree(names[q]); xrlFree(names); }
+    if (!c[0] || !c[1] || !c[2]) { r->flags |= F_NULLOBJ; for (int q = 0; q < 3; q++) if (c[q]) FreeCompoundDataNIST(c[q]); return; }
+    unsigned long long h1 = dg_nist(c[1]);
+    c[0]->name[0] = '~'; c[0]->density = -1; for (int q = 0; q < c[0]->nElements; q++) { c[0]->Elements[q] = -7; c[0]->massFractions[q] = 9; }
+    struct compoundDataNIST *d = GetCompoundDataNISTByIndex(k, NULL);
+    r->v[0] = (dg_nist(c[1]) == h1 && dg_nist(c[2]) == h1 && d && dg_nist(d) == h1 && c[0]->Elements != c[1]->Elements && c[1]->name != c[2]->name);
+    if (d) FreeCompoundDataNIST(d);
+    for (int q = 0; q < 3; q++) FreeCompoundDataNIST(c[PERM3[perm][q]]);
+}
+static void op_deepcopy_radio(uint32_t j, rec_t *r, xrl_error **e) {
+    struct radioNuclideData *c[3]; int k = I(0), perm = I(1) % 6;
+    for (int q = 0; q < 3; q++) c[q] = GetRadioNuclideDataByIndex(k, q == 0 ? e : NULL);
+    if (!c[0] || !c[1] || !c[2]) { r->flags |= F_NULLOBJ; for (int q = 0; q < 3; q++) if (c[q]) FreeRadioNuclideData(c[q]); return; }
+    unsigned long long h1 = dg_radio(c[1]);
+    c[0]->name[0] = '~'; c[0]->Z = -1; for (int q = 0; q < c[0]->nXrays; q++) { c[0]->XrayLines[q] = 5; c[0]->XrayIntensities[q] = -1; } for (int q = 0; q < c[0]->nGammas; q++) { c[0]->GammaEnergies[q] = -1; c[0]->GammaIntensities[q] = -1; }
+    struct radioNuclideData *d = GetRadioNuclideDataByIndex(k, NULL);
+    r->v[0] = (dg_radio(c[1]) == h1 && dg_radio(c[2]) == h1 && d && dg_radio(d) == h1 && c[0]->XrayLines != c[1]->XrayLines);
+    if (d) FreeRadioNuclideData(d);
+    for (int q = 0; q < 3; q++) FreeRadioNuclideData(c[PERM3[perm][q]]);
+}
+static void op_deepcopy_crystal(uint32_t j, rec_t *r, xrl_error **e) {
+    Crystal_Struct *c[3]; int perm = I(1) % 6;
+    for (int q = 0; q < 3; q++) c[q] = q < 2 ? Crystal_GetCrystal(S(0), NULL, q == 0 ? e : NULL) : (c[0] ? Crystal_MakeCopy(c[0], NULL) : NULL);
+    if (!c[0] || !c[1] || !c[2]) { r->flags |= F_NULLOBJ; for (int q = 0; q < 3; q++) if (c[q]) Crystal_Free(c[q]); return; }
+    unsigned long long h1 = dg_crystal(c[1]);
+    c[0]->name[0] = '~'; c[0]->a = -1; c[0]->volume = 0; for (int q = 0; q < c[0]->n_atom; q++) { c[0]->atom[q].Zatom = -3; c[0]->atom[q].x = 77; }
+    Crystal_Struct *d = Crystal_GetCrystal(S(0), NULL, NULL);
+    r->v[0] = (dg_crystal(c[1]) == h1 && dg_crystal(c[2]) == h1 && d && dg_crystal(d) == h1 && c[0]->atom != c[1]->atom && c[1]->atom != c[2]->atom);
+    if (d) Crystal_Free(d);
+    for (int q = 0; q < 3; q++) Crystal_Free(c[PERM3[perm][q]]);
+}
+
 const op_t optab[] = {
     { "CompoundParser", op_CompoundParser }, { "add_compound_data", op_add_compound_data },
     { "NISTByName", op_NISTByName }, { "NISTByIndex", op_NISTByIndex }, { "NISTList", op_NISTList },
@@ -186,5 +236,6 @@ const op_t optab[] = {
     { "Crystal_MakeCopy", op_Crystal_MakeCopy }, { "crystal_dump", op_crystal_dump },
     { "defcrystal", op_defcrystal }, { "clearcrystals", op_clearcrystals },
     { "SymbolToAtomicNumber", op_SymbolToAtomicNumber }, { "locale", op_locale },
+    { "deepcopy_nist", op_deepcopy_nist }, { "deepcopy_radio", op_deepcopy_radio }, { "deepcopy_crystal", op_deepcopy_crystal },
 };
 const int noptab = sizeof optab / sizeof optab[0];
